@@ -356,7 +356,7 @@ func runC15(r *mc.Run) {
 		depth = 7
 		r.SetBudget(10 * 60 * 1e9)
 	} else {
-		r.SetBudget(150 * 1e9)
+		r.SetBudget(300 * 1e9)
 	}
 	r.Bounds["depth_blocks"] = depth
 	r.Rule = "DFS over lock/unlock/time histories (unlock 10s, exit 30s; dt in {1,9,10,20,30}; bursts of 17; several unlocks with equal timestamps; tombstoned and below-threshold validators); oracle = reference release times, arrival in the delivery queue exactly at the first block with time >= release, maturity order, FIFO hand-over <= 16, id multiset conservation, exiting validators leave the candidate set"
